@@ -20,11 +20,30 @@ ATOMS = ['0', '1', '-1', '0x7fffffff', '0x80000000', '4294967296', '184467440737
          '__builtin_constant_p', '__builtin_expect', '__builtin_nanf', '__builtin_inff', '__builtin_unreachable', '__builtin_va_start', '__builtin_va_copy']
 TOKRE = re.compile(rb'[A-Za-z_][A-Za-z_0-9]*|\d[\w.]*|"(?:[^"\\\n]|\\.)*"|\'(?:[^\'\\\n]|\\.)*\'|<<=|>>=|\.\.\.|->|\+\+|--|<<|>>|<=|>=|==|!=|&&|\|\||[-+*/%&|^]=|::|##|\s+|.', re.S)
 
+def _index_boundaries():
+    """designated indices around floor(2^64 / element size): the size computation of an array of unknown length must not wrap"""
+    out = []
+    for ty, sz in (('char', 1), ('short', 2), ('int', 4), ('long', 8), ('struct { char c[24]; }', 24)):
+        lim = (1 << 64) // sz
+        for k in (lim - 2, lim - 1, lim, lim + 1):
+            if k >= 1 << 64:
+                continue
+            init = '{ 0 }' if ty.startswith('struct') else '1'
+            out.append(('index-boundary-static-%d-%x' % (sz, k), '%s a[] = { [%#x] = %s };\nint n = sizeof a != 0;\n' % (ty, k, init)))
+            if (k + 1) * sz >= 1 << 64:          # rejected quickly on the unchanged tree; the accepted ones would zero 2^64 bytes store by store
+                out.append(('index-boundary-auto-%d-%x' % (sz, k), 'void f(void) { %s a[] = { [%#x] = %s }; }\n' % (ty, k, init)))
+    return out
+
+
 HANDWRITTEN = [
     ('union-two-designators', 'union U { int a; char b; } u = { .a = 1, .b = 2 };\n'),
     ('designator-depth-33', 'struct S { int a; } ;\nint x[1]' + '[1]' * 34 + ' = {' + '[0]' * 35 + ' = 1};\n'),
     ('attr-eof', '[[foo('),
     ('div-zero', 'int x = 1/0; int y = 1%0; long z = (-0x7fffffffffffffff-1) / -1;\n'),
+    ('rem-overflow', 'long z = (-0x7fffffffffffffff-1) % -1;\n'), ('rem-overflow-case', 'int f(long v){ switch (v) { case (-0x7fffffffffffffffLL-1) % -1: return 1; } return 0; }\n'),
+    ('rem-overflow-int', 'int z = (-0x7fffffff-1) % -1; int w = (-0x7fffffff-1) / -1; enum { E = (-0x7fffffffffffffffLL-1) % -1LL };\n'),
+    ('backslash-nul-string', b'char *s = "a\\\x00b";\n'), ('backslash-nul-char', b"int c = '\\\x00';\n"), ('backslash-nul-E', b'#define S(x) #x\nchar *s = S("\\\x00");\n'),
+    ('nul-in-string', b'char s[] = "a\x00b";\n'), ('backslash-eof', b'char *s = "abc\\'), ('backslash-newline-eof', b'int x = 1; \\\n'),
     ('dup-label', 'int f(void){ l: l: return 0; }\n'),
     ('align16-partial-init', 'struct S { _Alignas(16) int x; int y; }; void f(void){ struct S s = {.y = 1}; }\n'),
     ('surrogate-literal', b'char s[] = "\xed\xa8\x80";\n'),
@@ -202,7 +221,7 @@ def run(ctx):
             arch = f[:-2].split('+')[-1] if '+' in os.path.basename(f) else 'x86_64-sysv'
             corpus.append((open(f, 'rb').read(), ['-t', arch] + (['-E'] if os.path.exists(f[:-2] + '.pp') else [])))
         cases = []   # (kind, bytes, args, use_sanitizer)
-        for name, src in HANDWRITTEN:
+        for name, src in HANDWRITTEN + _index_boundaries():
             b = src if isinstance(src, bytes) else src.encode()
             cases.append(('hand:' + name, b, ['-t', 'x86_64-sysv'], True))
             cases.append(('hand-E:' + name, b, ['-t', 'x86_64-sysv', '-E'], True))
